@@ -53,7 +53,44 @@ pub mod pb {
 }
 
 /// What one simulated run did, as measured by the stubs and the interpreter.
+thread_local! {
+    /// When set, every `Obs` created on this thread keeps a readable log of its events (used only when a replay file is
+    /// written or replayed; never during the search, and never part of the trace hash).
+    static LOG_EVENTS: std::cell::Cell<bool> = const { std::cell::Cell::new(false) };
+}
+
+/// Run `f` with event logging switched on for this thread.
+pub fn with_event_log<R>(f: impl FnOnce() -> R) -> R {
+    LOG_EVENTS.with(|l| l.set(true));
+    let r = f();
+    LOG_EVENTS.with(|l| l.set(false));
+    r
+}
+
+/// Human-readable name of an event code (see `stubs::ev`).
+pub fn event_name(code: u8) -> String {
+    match code {
+        1 => "transfer-all".into(),
+        2 => "transfer-short".into(),
+        3 => "pending".into(),
+        9 => "end-of-stream".into(),
+        10 => "accept-zero/empty-offer".into(),
+        11 => "cancel(drop future)".into(),
+        12 => "poll".into(),
+        13 => "issue-call".into(),
+        14 => "result".into(),
+        15 => "sink-full".into(),
+        16 => "flush".into(),
+        17 => "task-switch".into(),
+        20..=25 => format!("c13-sink#{}", code - 20),
+        32..=63 => format!("error(kind#{})", code - 32),
+        other => format!("event#{other}"),
+    }
+}
+
 pub struct Obs {
+    /// readable event log, only kept while `with_event_log` is active (bounded)
+    pub log: Option<Vec<(u8, u64)>>,
     pub steps: u64,
     pub faults: [u64; fk::COUNT],
     pub probes: [u64; pb::COUNT],
@@ -64,7 +101,8 @@ pub struct Obs {
 
 impl Obs {
     pub fn new() -> Self {
-        Obs { steps: 0, faults: [0; fk::COUNT], probes: [0; pb::COUNT], trace: Fnv::new(), nontrivial: false, edges: Vec::new() }
+        let log = if LOG_EVENTS.with(|l| l.get()) { Some(Vec::new()) } else { None };
+        Obs { log, steps: 0, faults: [0; fk::COUNT], probes: [0; pb::COUNT], trace: Fnv::new(), nontrivial: false, edges: Vec::new() }
     }
     /// One simulator event (stub call / poll / caller decision); advances simulated time.
     #[inline]
@@ -72,6 +110,11 @@ impl Obs {
         self.steps += 1;
         self.trace.byte(code);
         self.trace.u64(a);
+        if let Some(l) = &mut self.log {
+            if l.len() < 400 {
+                l.push((code, a));
+            }
+        }
     }
     #[inline]
     pub fn fault(&mut self, k: usize) {
@@ -508,6 +551,17 @@ pub fn verif_dir() -> String {
 }
 
 pub fn write_replay<P: Property>(s: &P::S, v: &Violation, seed: u64, index: u64, min_execs: u32) -> String {
+    // the executed schedule and fault trace of this scenario (first 400 simulator events), for the reader of the file; replay
+    // itself only needs `scenario`
+    let executed: Vec<Json> = if v.clause == "hang" {
+        Vec::new()
+    } else {
+        with_event_log(|| {
+            let mut obs = Obs::new();
+            let _ = run_guarded(s, &mut obs);
+            obs.log.unwrap_or_default().iter().enumerate().map(|(i, (c, a))| Json::Str(format!("{i}: {} {a}", event_name(*c)))).collect()
+        })
+    };
     let j = Json::obj()
         .set("property", P::ID)
         .set("clause", v.clause.as_str())
@@ -516,7 +570,9 @@ pub fn write_replay<P: Property>(s: &P::S, v: &Violation, seed: u64, index: u64,
         .set("seed", seed)
         .set("run_index", index)
         .set("minimiser_executions", min_execs)
-        .set("scenario", s.to_json());
+        .set("scenario", s.to_json())
+        .set("executed_trace_note", "simulated time = event index; '<event> <argument>' where the argument is a byte count, stream offset or call index")
+        .set("executed_trace", Json::Arr(executed));
     let mut h = Fnv::new();
     h.str(&s.to_json().to_string_compact());
     h.str(&v.clause);
@@ -540,8 +596,20 @@ pub fn replay<P: Property>(j: &Json, path: &str) -> i32 {
         }
     };
     let expected = j.get("clause").and_then(|c| c.as_str()).unwrap_or("");
-    let mut obs = Obs::new();
-    match run_guarded(&s, &mut obs) {
+    let (res, obs) = with_event_log(|| {
+        let mut obs = Obs::new();
+        let r = run_guarded(&s, &mut obs);
+        (r, obs)
+    });
+    if let Some(l) = &obs.log {
+        for (i, (c, a)) in l.iter().enumerate().take(60) {
+            println!("  t={i:<3} {} {a}", event_name(*c));
+        }
+        if l.len() > 60 {
+            println!("  ... ({} more events)", obs.steps.saturating_sub(60));
+        }
+    }
+    match res {
         Ok(()) => {
             println!("REPLAY property={} path={} result=pass steps={}", P::ID, path, obs.steps);
             0
